@@ -49,6 +49,10 @@ def gen_spec(rng):
     spec = _gen_spec_base(rng)
     # a parent entity P: `items = Set(E0, cascade_delete=True)` followed by a collection that REFUSES the delete
     spec['with_p'] = (not spec['with_h']) and rng.random() < 0.3
+    # primary key containing a relationship attribute: PrimaryKey(owner, issue) with the one-to-one reverse Q.badge
+    # ('relpk'), or the one-to-one reference itself as the primary key ('relpk1')
+    if rng.random() < 0.22:
+        spec['pk'] = rng.choice(['relpk', 'relpk', 'relpk1']); spec['with_h'] = spec['with_p'] = False
     return spec
 
 
@@ -67,6 +71,10 @@ class World:
         L = ['class E0(db.Entity):']
         if pk == 'explicit': L.append('    id = PrimaryKey(int)')
         elif pk == 'composite': L += ['    p0 = Required(int)', '    p1 = Required(int)', '    PrimaryKey(p0, p1)']
+        elif pk == 'relpk': L += ["    owner = Required('Q')", '    issue = Required(int)', '    PrimaryKey(owner, issue)']
+        elif pk == 'relpk1': L += ["    owner = PrimaryKey('Q')"]
+        if pk in ('relpk', 'relpk1'):
+            L[:0] = ['class Q(db.Entity):', '    id = PrimaryKey(int)', "    badge = Optional('E0')"]
         for i in range(n): L.append('    a%d = Optional(int%s)' % (i, ', unique=True' if spec['unique'][i] else ''))
         for k in spec['ckeys']: L.append('    composite_key(%s)' % ', '.join('a%d' % i for i in k))
         L.append("    rs = Set('R', reverse='e')")
@@ -85,8 +93,8 @@ class World:
         self.source = '\n'.join(L)
         exec(self.source, ns)
         self.classes = [ns['E%d' % c] for c in range(len(parents))]
-        self.E0 = self.classes[0]; self.R = ns['R']; self.H = ns.get('H'); self.P = ns.get('P'); self.L = ns.get('L')
-        self.ps = []
+        self.E0 = self.classes[0]; self.R = ns['R']; self.H = ns.get('H'); self.P = ns.get('P'); self.L = ns.get('L'); self.Q = ns.get('Q')
+        self.ps = []; self.qs = {}; self.relpk = pk if pk in ('relpk', 'relpk1') else None
         if dbfile is None: db.bind('sqlite', ':memory:')
         else: db.bind('sqlite', dbfile, create_db=True)
         db.generate_mapping(create_tables=True)
@@ -123,9 +131,22 @@ class World:
     def pkl(self, o):
         p = o._pkval_
         if p is None: return None
+        if self.relpk: return list(o._get_raw_pkval_())          # the related object counts as its own primary key
         return list(p) if self.composite_pk else [p]
+    def rawkey(self, k):
+        if self.relpk == 'relpk': return [k[0]._pkval_, k[1]]
+        if self.relpk == 'relpk1': return [k._pkval_]
+        return list(k) if self.composite_pk else [k]
     def pkt(self, pk):
+        if self.relpk:
+            if pk[0] not in self.qs: raise StaleOp()
+            return (self.qs[pk[0]], pk[1]) if self.relpk == 'relpk' else self.qs[pk[0]]
         return tuple(pk) if self.composite_pk else pk[0]
+    def pk_kw(self, pk):
+        if self.relpk:
+            if pk[0] not in self.qs: raise StaleOp()
+            return {'owner': self.qs[pk[0]], 'issue': pk[1]} if self.relpk == 'relpk' else {'owner': self.qs[pk[0]]}
+        return {'p0': pk[0], 'p1': pk[1]} if self.composite_pk else {'id': pk[0]}
     def idx(self, x):
         for i, o in enumerate(self.objs):
             if o is x: return i
@@ -157,7 +178,10 @@ class World:
         return self.cache().indexes[self.pk_attrs].get(self.pkt(pk))
 
     # ---- setup
-    def populate_parents(self):
+    def populate_parents(self, with_q=False):
+        if with_q and self.Q is not None:
+            with db_session:
+                for i in range(1, 5): self.Q(id=i)
         if self.P is None: return
         with db_session:
             p0 = self.P(); self.P()
@@ -167,10 +191,12 @@ class World:
         n = len(self.attrs)
         with db_session:
             made = []
+            qs = {i: self.Q(id=i) for i in range(1, 5)} if self.Q else {}
             for _ in range(rng.choice([0, 1, 2, 3, 4, 5])):
                 kw = self.rand_create_kw(rng, explicit_auto=False)
                 cls = self.classes[rng.randrange(len(self.classes))]
                 if self.H: kw['h'] = self.H()
+                if self.Q: kw['owner'] = qs[kw['owner']]
                 try: made.append(cls(**kw))
                 except Exception: pass
             for _ in range(rng.choice([0, 1, 2, 3])):
@@ -186,10 +212,15 @@ class World:
     def rand_val(self, rng):
         return rng.choice([None, 0, 1, 1, 2, 2, 3])
     def rand_pk(self, rng):
+        if self.relpk == 'relpk': return [rng.randrange(1, 5), rng.randrange(1, 3)]
+        if self.relpk == 'relpk1': return [rng.randrange(1, 5)]
         return [rng.randrange(1, 3), rng.randrange(1, 4)] if self.composite_pk else [rng.randrange(1, 7)]
     def rand_create_kw(self, rng, explicit_auto=True):
         kw = {}
-        if self.composite_pk:
+        if self.relpk:
+            p = self.rand_pk(rng); kw['owner'] = p[0]              # the id of a Q; op_create passes the object
+            if self.relpk == 'relpk': kw['issue'] = p[1]
+        elif self.composite_pk:
             p = self.rand_pk(rng); kw['p0'], kw['p1'] = p
         elif not self.auto or (explicit_auto and rng.random() < 0.25):
             kw['id'] = self.rand_pk(rng)[0]
@@ -242,12 +273,60 @@ class World:
         if op.get('parent') is not None:
             if not self.ps or self.ps[op['parent']]._status_ in DEL: raise StaleOp()
             kw['p'] = self.ps[op['parent']]
+        before = None
+        if self.relpk:
+            if kw['owner'] not in self.qs: raise StaleOp()
+            q = self.qs[kw['owner']]
+            pk = [kw['owner'], kw['issue']] if self.relpk == 'relpk' else [kw['owner']]
+            kw['owner'] = q
+            # the primary-key attribute's own update_reverse raises INSIDE the identity map: the owner is marked deleted, or its
+            # one-to-one side is occupied ('Cannot unlink …')
+            if q._status_ in DEL: late = True
+            else:
+                if self.Q.badge not in q._vals_: raise StaleOp()           # would query the database inside the constructor
+                cur = q._vals_[self.Q.badge]
+                late = cur is not None
+        cache = self.cache()
+        before = (set(id(o) for o in cache.objects if isinstance(o, self.E0)), set(cache.indexes[self.pk_attrs]))
         cls = self.classes[op['cls']]
         err, res = self.call(lambda: cls(**kw))
-        pk = [kw['p0'], kw['p1']] if self.composite_pk else ([kw['id']] if 'id' in kw else None)
+        if not self.relpk: pk = [kw['p0'], kw['p1']] if self.composite_pk else ([kw['id']] if 'id' in kw else None)
         mop = {'k': 'create', 'cls': op['cls'], 'pk': pk, 'vals': [kw.get('a%d' % i) for i in range(len(self.attrs))], 'lateFail': late}
         if err is None: self.reg(res)
-        return {'err': err, 'yields': [res] if err is None else [], 'mops': [mop]}
+        out = {'err': err, 'yields': [res] if err is None else [], 'mops': [mop], 'late': late}
+        if err is not None:
+            # the property, for a failed creation: nothing of it stays in the session (no zombie in cache.objects / the identity map)
+            after = (set(id(o) for o in cache.objects if isinstance(o, self.E0)), set(cache.indexes[self.pk_attrs]))
+            if after != before:
+                out['extra_bad'] = [('failed-create-left-object-behind',
+                                     {'outcome': err, 'new objects in the session': len(after[0] - before[0]),
+                                      'new primary-key index entries': sorted(repr(k) for k in after[1] - before[1])})]
+        return out
+
+    def op_qdelete(self, op):
+        """Q[i].delete() of an owner without a badge (with one the delete is refused: Q.badge has no cascade)"""
+        if op['q'] not in self.qs: raise StaleOp()
+        q = self.qs[op['q']]
+        if q._status_ in DEL or self.Q.badge not in q._vals_ or q._vals_[self.Q.badge] is not None: raise StaleOp()
+        err, _ = self.call(q.delete)
+        return {'err': err, 'yields': None, 'mops': []}
+
+    def op_qinit(self, op):
+        """the session reads every owner's one-to-one side first (so that constructors do not query the database)"""
+        if not self.Q: raise StaleOp()
+        rows = self.db_rows()
+        def f():
+            for i in sorted(self.qs): self.qs[i].badge
+        err, _ = self.call(f)
+        by_owner = {}
+        for r in rows: by_owner.setdefault(r['pk'][0], []).append(r)
+        mops = []
+        for i in sorted(self.qs):
+            for r in by_owner.get(i, [])[:1]:
+                mops.append(self.row_mop(r))
+                o = self.cache().indexes[self.pk_attrs].get(self.pkt(r['pk']))
+                if o is not None: self.reg(o)
+        return {'err': err, 'yields': None, 'mops': mops}
 
     def op_set(self, op):
         o = self.obj(op['o'])
@@ -337,9 +416,7 @@ class World:
         cls = self.classes[op['cls']]
         kw = {'a%d' % a: v for a, v in op['kw']}
         pk = op.get('pk')
-        if pk is not None:
-            if self.composite_pk: kw['p0'], kw['p1'] = pk
-            else: kw['id'] = pk[0]
+        if pk is not None: kw.update(self.pk_kw(pk))
         conds = []; params = []
         cw, _ = self.class_where(op['cls'])
         if cw: conds.append(cw)
@@ -352,6 +429,13 @@ class World:
         if cand is not None:
             if cand._vals_ is None or any(self.attrs[a] not in cand._vals_ for a, _ in op['kw']): raise StaleOp()
             if self.hier and cand in self.cache().seeds[self.pk_attrs]: raise StaleOp()
+        rel_fallback = False
+        if cand is None and self.relpk and pk is not None:
+            # `_find_in_cache_` has a 4th way: through the reverse one-to-one attribute of a value (`q.badge`); the object found
+            # there has another primary key, so the answer is ObjectNotFound without asking the database (relationship path)
+            if op['kw']: raise StaleOp()
+            b = self.qs[pk[0]]._vals_.get(self.Q.badge) if pk[0] in self.qs else None
+            rel_fallback = b is not None
         self.log.clear()
         if op.get('how') == 'item' and pk is not None and not op['kw']:
             err, res = self.call(lambda: cls[self.pkt(pk)])
@@ -363,7 +447,7 @@ class World:
         if queried and len(rows) == 1: mops.append(self.row_mop(rows[0], used=[a for a, _ in op['kw']]))
         ys = []
         if err is None: self.reg(res); ys = [res]
-        return {'err': err, 'yields': ys, 'mops': mops, 'queried': queried, 'nrows': len(rows)}
+        return {'err': err, 'yields': ys, 'mops': mops, 'queried': queried, 'nrows': len(rows), 'rel_fallback': rel_fallback}
 
     def peek_candidate(self, pk, kw):
         ix = self.cache().indexes
@@ -494,7 +578,7 @@ class World:
 
     def op_pickle(self, op):
         o = self.obj(op['o'])
-        if self.H or o._vals_ is None: raise StaleOp()
+        if self.H or self.relpk or o._vals_ is None: raise StaleOp()     # a loaded one-to-one cycle cannot be pickled
         err, data = self.call(lambda: pickle.dumps(o))
         if err is None:
             row = {'cls': self.cidx(o), 'pk': self.pkl(o), 'vals': [o._vals_.get(a, NL) for a in self.attrs]}
@@ -511,7 +595,7 @@ class World:
 
     def op_proxy(self, op):
         o = self.obj(op['o'])
-        if o._pkval_ is None: raise StaleOp()
+        if o._pkval_ is None or self.relpk: raise StaleOp()      # the proxy keeps the RAW key: never found in the index, always entity[pk]
         if self.live_index_obj(self.pkl(o)) is None: raise StaleOp()          # would fall back to entity[pk] (a database query)
         err, res = self.call(lambda: core.make_proxy(o)._get_object())
         return {'err': err, 'yields': [res] if err is None else [], 'mops': [{'k': 'proxy', 'o': op['o']}]}
@@ -537,7 +621,7 @@ class World:
                 out.append([key, self.idx(o)])
             return sorted(out)
         ixs = cache.indexes
-        pk = norm(ixs[self.pk_attrs] if self.pk_attrs in ixs else {}, not self.composite_pk)
+        pk = sorted([self.rawkey(k), self.idx(o)] for k, o in (ixs[self.pk_attrs] if self.pk_attrs in ixs else {}).items())
         keyix = [norm(ixs[ko] if ko in ixs else {}, len(key) == 1) for key, ko in zip(self.keys, self.key_objs)]
         queue = [self.idx(o) for o in cache.objects_to_save if o is not None and isinstance(o, self.E0)]
         return {'objs': objs, 'pk': pk, 'ixs': keyix, 'queue': queue}
@@ -597,6 +681,8 @@ def gen_op(rng, w):
         if w.H and live and rng.random() < 0.3: op['steal'] = rng.choice(live)
         if w.ps and rng.random() < 0.7: op['parent'] = rng.choice([0, 0, 1])
         return op
+    if w.Q and r < 0.24:
+        return {'k': 'qdelete', 'q': rng.randrange(1, 5)}
     if w.ps and r < 0.27:
         withkids = [i for i, p in enumerate(w.ps) if p._status_ not in DEL and any(o._status_ not in DEL and o._vals_ and o._vals_.get(w.E0.p) is p for o in objs)]
         if withkids or rng.random() < 0.3: return {'k': 'pdelete', 'p': rng.choice(withkids) if withkids else rng.choice([0, 1])}
@@ -661,13 +747,15 @@ def run_history(spec, pop_seed, ops=None, rng=None, nops=0, ctx=None, dbfile=Non
     """runs a history on fresh real classes; `ops` given: replay exactly; else generate `nops` calls with `rng`.
     returns (world, trace) with trace = [(op, result, snapshot, oracle findings)]"""
     w = World(spec, dbfile=dbfile)
-    w.populate_parents()
+    w.populate_parents(with_q=pop_seed is None)
     if pop_seed is not None: w.populate(random.Random(pop_seed))       # None: the history starts on an empty database
     trace = []
     with db_session:
         w.raw()
         if w.P is not None: w.ps = list(w.P.select().order_by(w.P.id))
+        if w.Q is not None: w.qs = {q.id: q for q in w.Q.select()}
         pending = list(ops) if ops is not None else first_ops(rng, w)
+        if w.Q is not None and not (pending and pending[0]['k'] == 'qinit'): pending.insert(0, {'k': 'qinit'})
         count = 0
         while True:
             if pending: op = pending.pop(0)
@@ -680,7 +768,7 @@ def run_history(spec, pop_seed, ops=None, rng=None, nops=0, ctx=None, dbfile=Non
                 continue
             snap = w.snapshot()
             ys = (res.get('yields') or []) + (res.get('results') or [])
-            bad = w.oracle(ys)
+            bad = w.oracle(ys) + res.pop('extra_bad', [])
             res['yinfo'] = [(w.idx(y), w.pkl(y), y._status_) for y in ys if y is not None]
             res['yield_ids'] = None if res.get('yields') is None else [w.idx(y) for y in res['yields']]
             res.pop('yields', None); res.pop('results', None)
@@ -751,6 +839,7 @@ def compare(ctx, w, spec, pop_seed, trace, steps):
         if not m['inv']: ctx.count('model:inv-false')
         if merr in ('BadOp', 'NeedLoad'):
             ctx.divergence('the model rejected a call the engine generated', hist(i), model=merr, impl=rerr); return
+        if res.get('late') and merr == 'ConstraintError' and rerr == 'OperationWithDeletedObjectError': merr = rerr    # the owner was deleted
         if res.get('outside_model'):
             ctx.count('call-failed-outside-the-model:%s:%s' % (op['k'], rerr)); return
         if res.get('db_refused'):
@@ -759,7 +848,12 @@ def compare(ctx, w, spec, pop_seed, trace, steps):
         if res.get('inferred') and rerr is not None and merr is None:
             ctx.count('inferred-call-raised:%s:%s' % (op['k'], rerr))    # which row raised inside navigation / prefetch is not predicted
             merr = rerr
-        if op['k'] == 'get':
+        if op['k'] == 'get' and res.get('rel_fallback'):
+            ctx.count('get:answered-through-the-reverse-one-to-one')
+            if rerr != 'ObjectNotFound' or res.get('queried'):
+                ctx.divergence('lookup through the reverse one-to-one attribute', hist(i), model='ObjectNotFound without a query', impl=[rerr, res.get('queried')]); return
+            merr = rerr
+        elif op['k'] == 'get':
             if merr is None and not [y for y in m['yields'] if y is not None]: merr = 'ObjectNotFound'
             if res.get('nrows', 0) > 1 and res.get('queried'): merr = 'MultipleObjectsFoundError' if merr in (None, 'ObjectNotFound') else merr
             if res.get('queried') != (len(m['yields']) >= 1 and m['yields'][0] is None):
@@ -810,6 +904,7 @@ def histories_chunk(ctx, rng, nhist, nops):
         except core.ERDiagramError as e:
             ctx.count('model-rejected:' + type(e).__name__); continue
         ctx.count('model:pk=%s,keys=%d,classes=%d%s%s' % (spec['pk'], len(w.keys), len(w.classes), ',late-failure' if spec['with_h'] else '', ',cascade-parent' if spec.get('with_p') else ''))
+        if w.relpk: ctx.count('model:relationship-in-primary-key:' + w.relpk)
         for op, res, snap, bad in trace:
             ctx.count('call:%s:%s' % (op['k'], res['err'] or 'ok'))
             ctx.case({'model': w.model_schema, 'call': op}, nontrivial=True, kind=op['k'])
@@ -853,6 +948,17 @@ DIRECTED = [
     ('unpickle-after-delete', _spec(1, [True]),
      [{'k': 'create', 'cls': 0, 'kw': {'id': 1, 'a0': 5}}, {'k': 'flush'}, {'k': 'pickle', 'o': 0}, {'k': 'delete', 'o': 0}, {'k': 'flush'},
       {'k': 'create', 'cls': 0, 'kw': {'id': 2, 'a0': 5}}, {'k': 'unpickle', 'd': 0}, {'k': 'create', 'cls': 0, 'kw': {'id': 1}}]),
+    # the primary key CONTAINS a relationship attribute: its update_reverse raises inside the identity map, after the
+    # primary-key index was written (owner occupied: 'Cannot unlink'; owner deleted): the key must stay free
+    ('failed-create-rel-pk', _spec(1, [True], pk='relpk'),
+     [{'k': 'qinit'}, {'k': 'create', 'cls': 0, 'kw': {'owner': 1, 'issue': 1, 'a0': 1}}, {'k': 'create', 'cls': 0, 'kw': {'owner': 1, 'issue': 2, 'a0': 2}},
+      {'k': 'flush'}, {'k': 'get', 'cls': 0, 'pk': [1, 2], 'kw': [], 'how': 'get'}, {'k': 'delete', 'o': 0},
+      {'k': 'create', 'cls': 0, 'kw': {'owner': 1, 'issue': 2, 'a0': 2}}, {'k': 'qdelete', 'q': 3},
+      {'k': 'create', 'cls': 0, 'kw': {'owner': 3, 'issue': 1, 'a0': 5}}, {'k': 'create', 'cls': 0, 'kw': {'owner': 2, 'issue': 1, 'a0': 5}}]),
+    ('failed-create-one-to-one-pk', _spec(1, [True], pk='relpk1'),
+     [{'k': 'qinit'}, {'k': 'create', 'cls': 0, 'kw': {'owner': 1, 'a0': 1}}, {'k': 'create', 'cls': 0, 'kw': {'owner': 1, 'a0': 2}},
+      {'k': 'qdelete', 'q': 3}, {'k': 'create', 'cls': 0, 'kw': {'owner': 3, 'a0': 5}}, {'k': 'flush'},
+      {'k': 'get', 'cls': 0, 'pk': [3], 'kw': [], 'how': 'get'}, {'k': 'create', 'cls': 0, 'kw': {'owner': 2, 'a0': 5}}]),
     # a delete that cascades to never-flushed objects with explicit primary keys and is then refused by a later collection:
     # the nested deletes popped the primary-key and key indexes; the undo must put every entry back
     ('refused-cascade', _spec(2, [True, False], ckeys=[[0, 1]], with_p=True),
